@@ -19,6 +19,7 @@ def run(chk):
     r13c(chk)
     r13d(chk)
     r13e(chk)
+    r13k(chk)
     from .c10 import r10e
 
     r10e(chk, 'R13.g')
@@ -292,6 +293,41 @@ def r13e(chk, rid='R13.e'):
             isinstance(st, ast.Assign) and any(isinstance(t, ast.Name) and t.id == 'valid' for t in st.targets) for st in ci.node.body)
         chk.ob(rid, ci.rel, cls, f'offers `valid` ({why})', has,
                'CSSStyleSheet.valid skips rules without a `valid` attribute: invalid declarations inside this rule kind do not make the sheet invalid')
+
+
+def r13k(chk, rid='R13.k'):
+    chk.rule(rid, 'the conjunction upwards skips nothing, decided by evaluation: the `valid` getters of the containers - style sheet, @media rule, @page rule - are evaluated on their syntax trees over model children of every rule kind (style, @page, @font-face, nested @media, margin box, and kinds without a verdict such as comments and unknown rules), all valid and with exactly one invalid child at each position: the container is valid iff every child that has a verdict is valid')
+    from sa.absint import Evaluator, Obj, Raised, Record
+
+    kinds = {'CSSStyleRule': 1, 'CSSMediaRule': 4, 'CSSFontFaceRule': 5, 'CSSPageRule': 6, 'MarginRule': 1006}
+    consts = dict(STYLE_RULE=1, CHARSET_RULE=2, IMPORT_RULE=3, MEDIA_RULE=4, FONT_FACE_RULE=5, PAGE_RULE=6, NAMESPACE_RULE=10, COMMENT=1001, VARIABLES_RULE=1008, MARGIN_RULE=1006, UNKNOWN_RULE=0)
+
+    def child(kind, valid):
+        if kind in ('CSSComment', 'CSSUnknownRule'):
+            return Obj(kind=kind, type={'CSSComment': 1001, 'CSSUnknownRule': 0}[kind], **consts)  # no verdict
+        return Obj(kind=kind, type=kinds[kind], valid=valid, **consts)
+
+    containers = (('cssutils/css/cssstylesheet.py', 'CSSStyleSheet', ['CSSStyleRule', 'CSSComment', 'CSSMediaRule', 'CSSFontFaceRule', 'CSSPageRule', 'CSSUnknownRule']),
+                  ('cssutils/css/cssmediarule.py', 'CSSMediaRule', ['CSSStyleRule', 'CSSComment', 'CSSMediaRule', 'CSSPageRule', 'CSSUnknownRule']),
+                  ('cssutils/css/csspagerule.py', 'CSSPageRule', ['MarginRule', 'MarginRule']))
+    for rel, cls, content in containers:
+        m = chk.repo.mod(rel)
+        fn = m.get(f'{cls}._getValid')
+        cases = [None] + [i for i, k in enumerate(content) if k not in ('CSSComment', 'CSSUnknownRule')]
+        bad = []
+        for broken in cases:
+            rules = [child(k, i != broken) for i, k in enumerate(content)]
+            me = Obj(cssRules=rules, _cssRules=rules, style=Record(valid=True), **consts)
+            got = Evaluator(fn, module=m, cls=cls).run(self=me)
+            want = broken is None
+            if isinstance(got, Raised) or bool(got) != want:
+                bad.append(f'{"all children valid" if broken is None else "invalid " + content[broken]}: {got!r}')
+        chk.ob(rid, rel, f'{cls}._getValid', f'valid iff every contained rule with a verdict is valid ({len(cases)} cases over {sorted(set(content))})', not bad,
+               '; '.join(bad[:3]) + ': an invalid declaration inside this kind of rule does not make the container (and the sheet) invalid')
+        if cls == 'CSSPageRule':
+            me = Obj(cssRules=[child('MarginRule', True)], style=Record(valid=False), **consts)
+            got = Evaluator(fn, module=m, cls=cls).run(self=me)
+            chk.ob(rid, rel, f'{cls}._getValid', 'an invalid declaration of the page block itself makes the rule invalid', got is False, f'{got!r}')
 
 
 def profile_eda(chk, rid):
